@@ -502,6 +502,8 @@ var lpInputs = []string{
 	"disk,host=a,path=/ free=0.25,message=\"two words\",n=3i 1234567890123456789\ncpu second=1i 1\n",
 	"m,t1=v1,t2=v2 message=\"hello world\",big=9007199254740993i,neg=-1i,f=-0.5 1609459200000000000\n",
 	"weird\\ name,ta\\,g=v\\ 1 fi\\ eld=\"q\\\"uote\",n=3i 42\n",
+	// explicit timestamps at, before and right after the epoch
+	"cpu,host=h1 v=1i,n=3i 0\n", "cpu,host=h1 v=1i,n=3i -1500000000\n", "cpu,host=h1 v=1i,n=3i 1\n", "cpu,host=h1 v=1i,n=3i -1\n", "cpu,host=h1 v=1i,n=3i -9223372036854775806\n",
 	// every escape the measurement, a tag key, a tag value and a field key admit
 	"cpu\\=total,host=h1 usage=7i 1600000000000000001\n", "m\\\"q,host=h1 v=1i 1600000000000000002\n", "cpu\\,x\\ y\\=z,ho\\=st=h\\=1,a\\ b=c\\,d v\\=w=1i,n=3i 1600000000000000003\n", "back\\\\slash,host=h1 n=3i 5\n",
 	"# a leading comment line\ncpu,host=h1 usage=1.5,n=3i 1600000000000000000\n",
@@ -516,7 +518,7 @@ var textInputs = []string{"{\"url\":\"/q?a=1\\u0026b=2\",\"t\":\"\\u003cb\\u003e
 func genCase(t *rapid.T) (*tcase, bool, []string) {
 	c := &tcase{Scripts: map[string]string{}, Other: map[string]string{}}
 	ext := rapid.SampledFrom([]string{".p", ".ppl"}).Draw(t, "ext")
-	c.Name = rapid.SampledFrom([]string{"main", "main", "main.v2", "x.y.z", "my-script_1", "UPPER"}).Draw(t, "base") + ext
+	c.Name = rapid.SampledFrom([]string{"main", "main", "main.v2", "x.y.z", "my-script_1", "UPPER", ".hidden", ".#main", "..main", "~main"}).Draw(t, "base") + ext
 	var lines []string
 	nontrivial := false
 	var labels []string
@@ -546,7 +548,7 @@ func genCase(t *rapid.T) (*tcase, bool, []string) {
 		labels = append(labels, "script/fails-at-load")
 	case 2, 3:
 		if c.Mode == "workspace" {
-			sib := rapid.SampledFrom([]string{"sib", "sib.lib", "main.sib"}).Draw(t, "sibbase") + rapid.SampledFrom([]string{".p", ".ppl"}).Draw(t, "sibext")
+			sib := rapid.SampledFrom([]string{"sib", "sib.lib", "main.sib", ".shared", ".base.v2"}).Draw(t, "sibbase") + rapid.SampledFrom([]string{".p", ".ppl"}).Draw(t, "sibext")
 			c.Scripts[sib] = rapid.SampledFrom([]string{"add_key(from_sibling, 1)\nset_measurement(\"sibm\")", "set_tag(sibtag, \"s\")", "x = 1 + \"a\"", "exit()\nadd_key(never2, 1)", "add_key(ts2, \"1600000999\")\ndefault_time(ts2)"}).Draw(t, "sibbody")
 			at := rapid.IntRange(0, len(lines)).Draw(t, "useat")
 			// the use call in one of its valid spellings
